@@ -283,7 +283,7 @@ fn observe_embedded(rec: &mut Recorder, rng: &mut Prng) {
     let back = <Json<Embedded> as Payload>::decode(&p).ok().map(|x| format!("{:?}", x.0) == format!("{v:?}")).unwrap_or(false);
     let fback = <Json<Embedded> as Footer>::decode(&p).ok().map(|x| format!("{:?}", x.0) == format!("{v:?}")).unwrap_or(false);
     rec.emit(json!({"fn":"json","payload_encode_ok":pe,"payload_bytes_equal":Some(&p) == direct.as_ref(),"footer_encode_ok":true,"footer_bytes_equal":true,
-        "payload_decode_equal":back,"footer_decode_equal":fback,"bad_agrees":true,"what":"registered claims flattened into an application struct","mask":mask}));
+        "payload_decode_equal":back,"footer_decode_equal":fback,"bad_agrees":true,"framed_agree":true,"what":"registered claims flattened into an application struct","mask":mask}));
 }
 
 fn observe_json_wrappers(rec: &mut Recorder, rng: &mut Prng) {
@@ -295,7 +295,7 @@ fn observe_json_wrappers(rec: &mut Recorder, rng: &mut Prng) {
         let mut sink2 = Vec::new();
         let b = Footer::encode(&Json(FailsMidway), &mut sink2).is_err();
         rec.emit(json!({"fn":"json","payload_encode_ok":true,"payload_bytes_equal":a,"footer_encode_ok":true,"footer_bytes_equal":b,
-            "payload_decode_equal":true,"footer_decode_equal":true,"bad_agrees":true,"what":"an unserialisable value is refused by both encoders"}));
+            "payload_decode_equal":true,"footer_decode_equal":true,"bad_agrees":true,"framed_agree":true,"what":"an unserialisable value is refused by both encoders"}));
     }
     let v: Value = match rng.below(13) {
         // brackets and braces inside strings (balanced or not), as JSONPath / regular expressions / templates have them
@@ -344,8 +344,20 @@ fn observe_json_wrappers(rec: &mut Recorder, rng: &mut Prng) {
     let bad_generic = serde_json::from_slice::<Value>(&bad).is_ok();
     let bad_p = <Json<Value> as Payload>::decode(&bad).is_ok();
     let bad_f = <Json<Value> as Footer>::decode(&bad).is_ok();
+    // the same document in other framings (byte order mark, surrounding white space, control bytes, trailing data, comments): the
+    // wrappers accept exactly what serde_json accepts, with the same value
+    let mut framed_agree = true;
+    let frames: [(&[u8], &[u8]); 12] = [(b"\xEF\xBB\xBF", b""), (b" \t\r\n", b""), (b"", b" \n\t\r "), (b"\0", b""), (b"", b"\0"), (b"\x0c", b""), (b"", b","),
+        (b"/**/", b""), (b"", b"//x"), (b"\xFE\xFF", b""), (b"\xC2\xA0", b""), (b"", b"\xEF\xBB\xBF")];
+    for (pre, post) in frames {
+        let doc = [pre, &direct[..], post].concat();
+        let g = serde_json::from_slice::<Value>(&doc).ok();
+        let wp = <Json<Value> as Payload>::decode(&doc).ok().map(|x| x.0);
+        let wf = <Json<Value> as Footer>::decode(&doc).ok().map(|x| x.0);
+        framed_agree &= g == wp && g == wf;
+    }
     rec.emit(json!({"fn":"json","payload_encode_ok":pe,"payload_bytes_equal":p == direct,"footer_encode_ok":fe,"footer_bytes_equal":f == direct,
-        "payload_decode_equal":pd,"footer_decode_equal":fd,"bad_agrees": bad_p == bad_generic && bad_f == bad_generic}));
+        "payload_decode_equal":pd,"footer_decode_equal":fd,"bad_agrees": bad_p == bad_generic && bad_f == bad_generic, "framed_agree": framed_agree}));
     let empty_footer_ok = <Json<Value> as Footer>::decode(&[]).is_ok();
     let unit_footer_empty = <() as Footer>::decode(&[]).is_ok();
     let unit_footer_nonempty = <() as Footer>::decode(b"x").is_ok();
